@@ -1,7 +1,8 @@
 (* oracle/marshal/driver.ml — glue only: parse a line, call the extracted
    model (Marshal/Model.v, Marshal/ModelRefactor.v), print.
 
-   <id> unm <lim hex> <budget hex> <hex bytes>   -> val <cst> <used> <hex marshal> | nil <used> | err <class> <used> | fatal <req> | fuel
+   <id> unm <lim hex> <budget hex> <hex bytes>   -> val <cst> <used> <hex marshal> | nil <used> | err <class> <used> | fatal <req> | fuel,
+                                                    then A<al_unmarshal, hex> (0 when there is no budget)
    <id> unit <unit>                              -> ok            (remembers the unit for the dumpu lines that follow)
    <id> dumpu <idx hex>                          -> ok <hex bytes> <cst of the refactored code> | panic | unsup | fuel
    <id> dumpt <cst>                              -> the same for a code with its own constants
@@ -108,13 +109,15 @@ let () =
   iter_lines (fun line ->
     match split_on ' ' line with
     | [id; "unm"; lim; budget; data] ->
-      let r = go_unmarshal (z_of_hex lim) (z_of_hex budget) (zbytes data) in
+      let inp = zbytes data in
+      let r = go_unmarshal (z_of_hex lim) (z_of_hex budget) inp in
+      let al = if budget = "0" then "0" else hex_of_z (al_unmarshal (z_of_hex lim) (z_of_hex budget) inp) in
       print_endline (id ^ " " ^ (match r with
         | GVal (k, u) -> "val " ^ cst_str k ^ " " ^ hex_of_z u ^ " " ^ hexbytes (marshal k)
         | GNil u -> "nil " ^ hex_of_z u
         | GErr (e, u) -> "err " ^ err_str e ^ " " ^ hex_of_z u
         | GCrash r -> "fatal " ^ hex_of_z r
-        | GOutOfFuel -> "fuel"))
+        | GOutOfFuel -> "fuel") ^ " A" ^ al)
     | [id; "load"; lim; budget; data] ->
       print_endline (id ^ " " ^ (match load_binary (z_of_hex lim) (z_of_hex budget) (zbytes data) with
         | LFun (_, nup) -> "fun " ^ hex_of_z nup
